@@ -181,8 +181,16 @@ func sameBase(a, b ssa.Value) bool {
 	// both loads of the same address (e.g. a spilled receiver)
 	ua, ok1 := a.(*ssa.UnOp)
 	ub, ok2 := b.(*ssa.UnOp)
-	if ok1 && ok2 && ua.Op == token.MUL && ub.Op == token.MUL && ua.X == ub.X {
-		return true
+	if ok1 && ok2 && ua.Op == token.MUL && ub.Op == token.MUL {
+		if ua.X == ub.X {
+			return true
+		}
+		// two loads of the same field of the same object (go/ssa performs no CSE): x.p and x.p
+		fa, ok3 := ua.X.(*ssa.FieldAddr)
+		fb, ok4 := ub.X.(*ssa.FieldAddr)
+		if ok3 && ok4 && fa.Field == fb.Field && sameBase(fa.X, fb.X) {
+			return true
+		}
 	}
 	return false
 }
